@@ -423,7 +423,7 @@ func ruleG3(c *an.Ctx, fns []*ssa.Function) {
 	}
 	c.Note("G3: %d functions scanned, %d partial string matches on syntax name fields", scanned, n)
 	c.Floor("G3", "first-segment comparisons of reference paths (field[:IndexByte(field,'.')] == name)", n, 1)
-	c.Floor("G3", "functions of package refactoring scanned for partial name matches", scanned, 40)
+	c.Floor("G3", "functions of package refactoring scanned for partial name matches", scanned, 20)
 }
 
 func paramOfType(fn *ssa.Function, suffix string) *ssa.Parameter {
@@ -566,7 +566,7 @@ func ruleG4(c *an.Ctx, fns []*ssa.Function) {
 		})
 	}
 	c.Note("G4: %d table accesses with a key of known domain, %d of unknown domain (no verdict)", n, undecided)
-	c.Floor("G4", "accesses of a Callables.Table with a key of known domain in package refactoring", n, 4)
+	c.Floor("G4", "accesses of a Callables.Table with a key of known domain in package refactoring", n, 1)
 }
 
 // G6: edits created while callables are being renamed must not identify their target by the *live* id
@@ -610,7 +610,7 @@ func ruleG6(c *an.Ctx, sp *ssa.Package, inRefac func(*ssa.Function) bool) {
 		})
 	}
 	walk(root)
-	c.Floor("G6", "edit types constructed while renaming a callable", len(created), 3)
+	c.Floor("G6", "edit types constructed while renaming a callable", len(created), 1)
 	var applies []*ssa.Function
 	for f := range created {
 		applies = append(applies, f)
